@@ -296,6 +296,8 @@ type httpScenario struct {
 	// BodyKind: "" bytes.Reader | "seek-fails": an io.ReadSeeker whose Seek fails from the second attempt on (the attempt
 	// then ends before anything is sent)
 	BodyKind string `json:"body_kind,omitempty"`
+	// CloseErr: the inner transport's response bodies close properly but report an error from Close
+	CloseErr bool `json:"close_err,omitempty"`
 	// Barrier: the server answers only once this many requests are in flight (or 2 ms have passed), so that hedged
 	// attempts obtain their responses at the same moment
 	Barrier int `json:"barrier,omitempty"`
@@ -315,6 +317,24 @@ func (f *flakySeeker) Seek(off int64, whence int) (int64, error) {
 		return 0, errors.New("the request body is gone")
 	}
 	return f.r.Seek(off, whence)
+}
+
+// closeErrTransport hands out responses whose Body.Close releases the connection and then reports an error.
+type closeErrTransport struct{ inner http.RoundTripper }
+
+type closeErrBody struct{ io.ReadCloser }
+
+func (b closeErrBody) Close() error {
+	b.ReadCloser.Close()
+	return errors.New("close: the peer had already gone away")
+}
+
+func (t closeErrTransport) RoundTrip(r *http.Request) (*http.Response, error) {
+	resp, err := t.inner.RoundTrip(r)
+	if resp != nil && resp.Body != nil {
+		resp.Body = closeErrBody{resp.Body}
+	}
+	return resp, err
 }
 
 func runHTTP(sc httpScenario) (cleanup func()) {
@@ -349,15 +369,32 @@ func runHTTP(sc httpScenario) (cleanup func()) {
 	}))
 	tr := &http.Transport{MaxIdleConnsPerHost: 4}
 	currentTransport = tr
+	var rt http.RoundTripper = tr
+	if sc.CloseErr {
+		rt = closeErrTransport{tr}
+	}
 	for rep := 0; rep < sc.Reps; rep++ {
 		mu.Lock()
 		attempt = 0
 		mu.Unlock()
 		var pols []failsafe.Policy[*http.Response]
+		// "breaker-short": opens on the first 5xx; the retry policy's second retry half-opens it again
+		reopen := circuitbreaker.Builder[*http.Response]().HandleIf(func(r *http.Response, err error) bool {
+			return err != nil || (r != nil && r.StatusCode >= 500)
+		}).WithFailureThreshold(1).WithDelay(time.Hour).Build()
 		for _, k := range sc.Stack {
 			switch k {
 			case "retry":
-				pols = append(pols, failsafehttp.RetryPolicyBuilder().WithMaxRetries(3).Build())
+				rb := failsafehttp.RetryPolicyBuilder().WithMaxRetries(3)
+				if contains(sc.Stack, "breaker-short") {
+					// the breaker inside is half-opened again while the retries go on: 5xx, rejected, admitted again
+					rb.OnRetry(func(e failsafe.ExecutionEvent[*http.Response]) {
+						if e.Retries() == 2 {
+							reopen.HalfOpen()
+						}
+					})
+				}
+				pols = append(pols, rb.Build())
 			case "timeout":
 				pols = append(pols, timeout.With[*http.Response](time.Hour))
 			case "hedge-real":
@@ -371,6 +408,8 @@ func runHTTP(sc httpScenario) (cleanup func()) {
 				pols = append(pols, circuitbreaker.Builder[*http.Response]().HandleIf(func(r *http.Response, err error) bool {
 					return err != nil || (r != nil && r.StatusCode >= 500)
 				}).WithFailureThreshold(1).WithDelay(time.Hour).Build())
+			case "breaker-short":
+				pols = append(pols, reopen)
 			case "limiter":
 				// one permit per hour: the second attempt is rejected before anything is sent
 				pols = append(pols, ratelimiter.BurstyBuilder[*http.Response](1, time.Hour).Build())
@@ -410,9 +449,9 @@ func runHTTP(sc httpScenario) (cleanup func()) {
 		var resp *http.Response
 		var err error
 		if sc.Via == "request" {
-			resp, err = failsafehttp.NewRequestWithExecutor(req, &http.Client{Transport: tr}, ex).Do()
+			resp, err = failsafehttp.NewRequestWithExecutor(req, &http.Client{Transport: rt}, ex).Do()
 		} else {
-			resp, err = (&http.Client{Transport: failsafehttp.NewRoundTripperWithExecutor(tr, ex)}).Do(req)
+			resp, err = (&http.Client{Transport: failsafehttp.NewRoundTripperWithExecutor(rt, ex)}).Do(req)
 		}
 		if err != nil {
 			errs++
@@ -452,7 +491,7 @@ func genHTTP(t *rapid.T) httpScenario {
 		BodySize: rapid.SampledFrom([]int{0, 100, 20000}).Draw(t, "bodySize"),
 	}
 	for i, n := 0, rapid.IntRange(0, 3).Draw(t, "nPols"); i < n; i++ {
-		k := rapid.SampledFrom([]string{"retry", "retry", "timeout", "hedge-real", "hedge-custom", "breaker", "limiter"}).Draw(t, "pol")
+		k := rapid.SampledFrom([]string{"retry", "retry", "timeout", "hedge-real", "hedge-custom", "breaker", "breaker-short", "limiter"}).Draw(t, "pol")
 		if !contains(sc.Stack, k) && !(strings.HasPrefix(k, "hedge") && (contains(sc.Stack, "hedge-real") || contains(sc.Stack, "hedge-custom"))) {
 			sc.Stack = append(sc.Stack, k)
 		}
@@ -466,6 +505,7 @@ func genHTTP(t *rapid.T) httpScenario {
 			sc.Statuses = append(sc.Statuses, rapid.SampledFrom([]int{200, 404, 429, 500, 503}).Draw(t, "status"))
 		}
 	}
+	sc.CloseErr = rapid.IntRange(0, 3).Draw(t, "closeErr") == 0
 	if sc.BodySize > 0 && rapid.IntRange(0, 3).Draw(t, "seekFails") == 0 {
 		sc.BodyKind = "seek-fails"
 	}
